@@ -25,6 +25,7 @@ CLASSES = {
     "c4": dict(lp=100, aspath=[seq(2)], origin=0, clen=0, oid=0, comm=[], mm=0),          # loses to c1 on AS_PATH length
     "c5": dict(lp=100, aspath=[(1, [1, 2, 3])], origin=0, clen=0, oid=0, comm=[], mm=0),  # AS_SET of 3 counts 1: ties c1
     "c6": dict(lp=100, aspath=[(3, [7, 8]), seq(1)], origin=0, clen=0, oid=0, comm=[], mm=0),  # confed seq counts 0: ties c1
+    "cS": dict(lp=100, aspath=[(4, [7, 8]), seq(1)], origin=0, clen=0, oid=0, comm=[], mm=0),  # confed SET counts 0: ties c1
     "c7": dict(lp=100, aspath=[seq(1)], origin=2, clen=0, oid=0, comm=[], mm=0),          # loses on ORIGIN
     "c8": dict(lp=100, aspath=[seq(1)], origin=0, clen=2, oid=0, comm=[], mm=0),          # loses on CLUSTER_LIST length
     "c9": dict(lp=100, aspath=[seq(1)], origin=0, clen=0, oid=1, comm=[], mm=0),          # ORIGINATOR_ID 1 beats any router-id
@@ -365,6 +366,15 @@ def replay_walks(c, pid, cfg, walks, kinds=None, tag="w"):
     kinds_seen = {}
     with open(outp) as f:
         lines = f.read().splitlines()
+    if lines and lines[0].startswith("CLASSES "):
+        real_len = json.loads(lines[0][8:])
+        lines = lines[1:]
+        for cn in cfg.classes:
+            if real_len.get(cn) != aslen(CLASSES[cn]) and (kinds is None or any(k.startswith("c02") for k in kinds)):
+                c.violation("c02.aslen", {"class": cn, "aspath": CLASSES[cn]["aspath"], "hops_by_statement": aslen(CLASSES[cn]),
+                                          "hops_by_implementation": real_len.get(cn),
+                                          "why": "AS_PATH length: an AS_SET counts one, confederation segments zero (-1 = panic)"},
+                            {"spec": "Rib", "class": cn, "harness_config": harness_config(cfg)})
     li = 0
     for wi, w in enumerate(walks):
         assert lines[li] == "INIT", lines[li][:100]
